@@ -247,6 +247,7 @@ def determine_trace_candidates(
     idx: int,
     traces: gpd.GeoDataFrame,
     spatial_index: Optional[SpatialIndex],
+    extend_bounds_by: float = 0.0,
 ) -> gpd.GeoSeries:
     """
     Determine potentially intersecting traces with spatial index.
@@ -256,7 +257,19 @@ def determine_trace_candidates(
         return gpd.GeoSeries()
     assert isinstance(traces, (gpd.GeoSeries, gpd.GeoDataFrame))
     assert isinstance(spatial_index, SpatialIndex)
-    candidate_idxs = spatial_index_intersection(spatial_index, geom_bounds(geom))
+    min_x, min_y, max_x, max_y = geom_bounds(geom)
+    # Extend the bounds so that traces within the validation distance
+    # thresholds are candidates even when the bounding boxes do not intersect
+    # (e.g. axis-parallel traces).
+    candidate_idxs = spatial_index_intersection(
+        spatial_index,
+        (
+            min_x - extend_bounds_by,
+            min_y - extend_bounds_by,
+            max_x + extend_bounds_by,
+            max_y + extend_bounds_by,
+        ),
+    )
     candidate_idxs.remove(idx)
     candidate_traces: gpd.GeoSeries = traces.geometry.iloc[candidate_idxs]
     candidate_traces = candidate_traces.loc[  # type: ignore
